@@ -167,6 +167,35 @@ pub fn acceptance_oracle(ctx: &Context, sys: &TransitionSystem, text: &str) -> O
             } else {
                 return Err(("count".into(), "numbers of inputs/states/outputs differ from the text".into()));
             }
+        } else if !is_heavy(text) {
+            // the reference reader rejects the text (so the comparison above is not available), the subject accepted
+            // it: the widths the text declares for the nodes behind its `output` lines are still readable
+            // line by line (first line with that id; its sort id; that sort line)
+            let lines: Vec<Vec<&str>> = text.lines().map(|l| l.split(';').next().unwrap_or("").split([' ', '\t']).filter(|x| !x.is_empty()).collect()).collect();
+            let line_of = |id: &str| lines.iter().find(|t| t.len() >= 2 && t[0] == id);
+            let declared_ty = |id: &str| -> Option<Type> {
+                let t = line_of(id)?;
+                if t.len() < 3 || t[1] == "sort" {
+                    return None;
+                }
+                let srt = line_of(t[2])?;
+                match (srt.get(1), srt.get(2)) {
+                    (Some(&"sort"), Some(&"bitvec")) => srt.get(3)?.parse::<u32>().ok().map(Type::BV),
+                    _ => None,
+                }
+            };
+            let outs: Vec<&Vec<&str>> = lines.iter().filter(|t| t.len() >= 3 && t[1] == "output").collect();
+            if outs.len() == sys.outputs.len() {
+                for (k, t) in outs.iter().enumerate() {
+                    let id = t[2].trim_start_matches('-');
+                    if let Some(want) = declared_ty(id) {
+                        let got = sys.outputs[k].expr.get_type(ctx);
+                        if want != got && got.is_bit_vector() {
+                            return Err(("output-width".into(), format!("output #{k} refers to line {id}, which the text declares as {want}, but the output has type {got}")));
+                        }
+                    }
+                }
+            }
         }
         Ok(())
     })();
